@@ -400,7 +400,7 @@ Arguments EOutOfFuel {A}.
 Arguments EPanic {A} code.
 
 (* fuel handed to every entry point: (number of tokens + 1) * fuel_factor *)
-Definition fuel_factor : nat := 40.
+Definition fuel_factor : nat := 8.
 Definition fuel_for (ts : list ptok) : nat := (length ts + 1) * fuel_factor.
 
 (* run an entry point: newPeeker, parser body, AssertEmptyIncludeNewlinesStack; the lexer's
